@@ -20,7 +20,7 @@ import (
 	"verif/harness/internal/out"
 )
 
-var scenarios = []string{"rr-fixed", "rr-dynamic", "random-fixed", "random-dynamic", "mw-rr", "mw-random"}
+var scenarios = []string{"rr-shared-shuffle", "rr-fixed", "rr-dynamic", "random-fixed", "random-dynamic", "mw-rr", "mw-random"}
 
 type dynStep struct {
 	Idx int `json:"report"` // index into the pool; -1: the subscriber was not asked
@@ -87,14 +87,14 @@ func dynPool() []report {
 		{Err: "a"}, {Hosts: mk("e", 8)}, {Hosts: mk("f", 2), Err: "b"}, {Hosts: mk("g", 7)}}
 }
 
-func runDyn(via, k, calls int, mk func(s sd.Subscriber) func() res) dynObs {
+func runDyn(via, k, calls int, mk func(s sd.Subscriber) func(k int) res) dynObs {
 	d := &dynSub{pool: dynPool()}
 	call := mk(d)
 	last := make([]int, k)
 	idxs := make([][]int, k)
 	per := runConcurrent(k, calls, func(i int) { d.slots.Store(goid(), &last[i]) }, func(i int) res {
 		last[i] = -1
-		o := call()
+		o := call(i*100000 + len(idxs[i]))
 		idxs[i] = append(idxs[i], last[i])
 		return o
 	})
@@ -119,10 +119,28 @@ func childMain(cfg out.Config, scenario string) {
 			}
 			o.Conc = append(o.Conc, concRR(hostList(c[0]), c[1], c[2], seed+uint64(i)*977, ctor))
 		}
+	case "rr-shared-shuffle":
+		// callers use a round robin balancer over FixedSubscriber(s) while another goroutine
+		// builds shuffled subscribers from the same slice
+		for _, c := range [][3]int{{7, 8, 70}, {101, 8, 101}, {2, 4, 50}} {
+			s := hostList(c[0])
+			before := append([]string{}, s...)
+			b := sd.NewRoundRobinLB(sd.FixedSubscriber(s))
+			start, known := sd.VerifC14Counter(b)
+			var sub sd.FixedSubscriber
+			per := runConcurrent(c[1], c[2], nil, func(int) res { return callHost(b) }, func() {
+				for i := 0; i < 200; i++ {
+					sub = sd.NewRandomFixedSubscriber(s)
+				}
+			})
+			end, _ := sd.VerifC14Counter(b)
+			o.Conc = append(o.Conc, concObs{Known: known, Hosts: before, K: c[1], Calls: c[2], Before: start, After: end, Per: per,
+				Shared: &sharedObs{before, append([]string{}, s...), []string(sub)}})
+		}
 	case "rr-dynamic":
-		o.Dyn = append(o.Dyn, runDyn(0, 16, 40, func(s sd.Subscriber) func() res {
+		o.Dyn = append(o.Dyn, runDyn(0, 16, 40, func(s sd.Subscriber) func(int) res {
 			b := sd.NewRoundRobinLB(s)
-			return func() res { return callHost(b) }
+			return func(int) res { return callHost(b) }
 		}))
 	case "random-fixed":
 		for _, n := range []int{2, 8} {
@@ -131,27 +149,28 @@ func childMain(cfg out.Config, scenario string) {
 			o.Share = append(o.Share, shareObs{hs, runConcurrent(16, 4*n, nil, func(int) res { return callHost(b) })})
 		}
 	case "random-dynamic":
-		o.Dyn = append(o.Dyn, runDyn(0, 16, 40, func(s sd.Subscriber) func() res {
+		o.Dyn = append(o.Dyn, runDyn(0, 16, 40, func(s sd.Subscriber) func(int) res {
 			b := sd.NewRandomLB(s)
-			return func() res { return callHost(b) }
+			return func(int) res { return callHost(b) }
 		}))
 	case "mw-rr":
 		hs := hostList(5)
 		p := proxy.NewRoundRobinLoadBalancedMiddlewareWithSubscriber(sd.FixedSubscriber(hs))(nextRecorder)
-		per := runConcurrent(16, 25, nil, func(int) res { return callMW(p) })
+		nreq := make([]int, 16)
+		per := runConcurrent(16, 25, nil, func(i int) res { nreq[i]++; return callMW(p, i*100000+nreq[i]) })
 		o.Conc = append(o.Conc, concObs{Known: false, Hosts: hs, K: 16, Calls: 25, Per: per})
-		o.Dyn = append(o.Dyn, runDyn(1, 8, 30, func(s sd.Subscriber) func() res {
+		o.Dyn = append(o.Dyn, runDyn(1, 8, 30, func(s sd.Subscriber) func(int) res {
 			p := proxy.NewRoundRobinLoadBalancedMiddlewareWithSubscriber(s)(nextRecorder)
-			return func() res { return callMW(p) }
+			return func(k int) res { return callMW(p, k) }
 		}))
 	case "mw-random":
-		o.Dyn = append(o.Dyn, runDyn(2, 8, 30, func(s sd.Subscriber) func() res {
+		o.Dyn = append(o.Dyn, runDyn(2, 8, 30, func(s sd.Subscriber) func(int) res {
 			p := proxy.NewRandomLoadBalancedMiddlewareWithSubscriber(s)(nextRecorder)
-			return func() res { return callMW(p) }
+			return func(k int) res { return callMW(p, k) }
 		}))
-		o.Dyn = append(o.Dyn, runDyn(3, 8, 30, func(s sd.Subscriber) func() res {
+		o.Dyn = append(o.Dyn, runDyn(3, 8, 30, func(s sd.Subscriber) func(int) res {
 			p := proxy.NewLoadBalancedMiddlewareWithSubscriber(s)(nextRecorder)
-			return func() res { return callMW(p) }
+			return func(k int) res { return callMW(p, k) }
 		}))
 	default:
 		fmt.Fprintln(os.Stderr, "unknown scenario", scenario)
@@ -250,8 +269,12 @@ func (g *gen) racePass() {
 			sc = fmt.Sprintf("%s@procs%d", sc, rn.procs)
 		}
 
-		for _, c := range co.Conc {
+		for i, c := range co.Conc {
 			g.addConc(c, "race:"+sc)
+			if c.Shared != nil {
+				g.addShared(*c.Shared, false, 0, nil, 0, map[string]interface{}{"scenario": sc, "consumer": "fixed, concurrent with NewRandomFixedSubscriber"},
+					fmt.Sprintf("SSC|%s|%d", sc, i))
+			}
 		}
 		for _, d := range co.Dyn {
 			for i, steps := range d.Per {
